@@ -381,12 +381,16 @@ pub fn check(case: &ScCase, st: &mut Stats) -> Result<(), Viol> {
 pub fn run(ctx: &RunCtx) -> Vec<PartOutcome> {
     let n = ctx.tier.pick(60, 1_500);
     let max_ops = ctx.tier.pick(8, 14);
-    vec![explore(ctx, "fault_enumeration", n, || sc_strategy(24, max_ops), check)]
+    vec![
+        explore(ctx, "fault_enumeration", n, || sc_strategy(24, max_ops), check),
+        explore_with(ctx, "tcp_ends", ctx.tier.pick(30, 400), 20, crate::checks::wirechecks::strat, crate::checks::wirechecks::c06_tcp_ends),
+    ]
 }
 
 pub fn replay(part: &str, input: &Value) -> Option<Result<Result<(), Viol>, String>> {
     match part {
         "fault_enumeration" => Some(replay_input::<ScCase>(input, check)),
+        "tcp_ends" => Some(replay_input::<crate::checks::wirechecks::WireCase>(input, crate::checks::wirechecks::c06_tcp_ends)),
         _ => None,
     }
 }
